@@ -42,6 +42,37 @@ def observe(ar2, tags):
     """content of a loaded archive, as comparable data (floats by bit pattern)"""
     return observe_objs({t: ar2.extract(t) for t in tags})
 
+def f32_names(objs):
+    """observation names (tag, tag.re, tag.im) of the archived reals that hold a numpy floating number other than float64
+    (np.float32, np.float16, ...) in a stored component vector: the input class of known finding C09-9"""
+    import numpy as np
+    from GTC import lib
+    bad = lambda v: isinstance(v, np.floating) and not isinstance(v, np.float64)
+    names = set()
+    for t, o in objs.items():
+        parts = [(t + '.re', o.real), (t + '.im', o.imag)] if isinstance(o, lib.UncertainComplex) else [(t, o)]
+        for n, r in parts:
+            vals = list(r._u_components.values()) + list(r._d_components.values()) + list(r._i_components.values())
+            if any(bad(v) for v in vals) or bad(r.x):
+                names.add(n)
+    return names
+
+def mark_f32(ar, items):
+    ar._c09_f32 = sorted(f32_names(items))
+    return ar._c09_f32
+
+def f32_of(ar):
+    return list(getattr(ar, '_c09_f32', ()))
+
+def diff_keys(obs, orig):
+    return sorted(k for k in set(orig) | set(obs) if obs.get(k) != orig.get(k))
+
+def in_f32_class(key, f32):
+    """is this observation key about a real of the class (its own record, or a correlation involving it)?"""
+    if key.endswith('#'): return key[:-1] in f32
+    if '~' in key: return any(p in f32 for p in key.split('~'))
+    return False
+
 def observe_objs(objs):
     """the same observation on uncertain numbers (used on the ORIGINAL objects as the reference)"""
     from GTC import core, lib
@@ -92,6 +123,23 @@ Import ListNotations.
 Local Open Scope string_scope.
 Local Open Scope float_scope.
 '''
+
+def count_nonfloat(ar, dist):
+    """stored numeric fields of a frozen archive that are not plain Python floats (numpy scalars left by arithmetic with numpy constants)"""
+    h = dist.setdefault('nonfloat_stored_fields', {})
+    def note(v):
+        if type(v) is not float:
+            h[type(v).__name__] = h.get(type(v).__name__, 0) + 1
+    for ln in ar._leaf_nodes.values():
+        note(ln.u); note(ln.df)
+    for v in list(ar._tagged_real.values()) + list(ar._untagged_real.values()):
+        if hasattr(v, 'x'): note(v.x)
+        else:
+            note(v.value)
+            for vec in (v.u_components, v.d_components, v.i_components):
+                for c in vec.values(): note(c)
+    for v in ar._intermediate_uids.values():
+        note(v[1]); note(v[2])
 
 def run_groups(name, header, groups, timeout=900):
     """groups: list of (definitions text, [terms of type Z]); one .v file per group, compiled in parallel.
@@ -157,11 +205,24 @@ def correspondence(rng, tier):
         aseed = rng.getrandbits(48)
         ar, desc, items = G.build_archive(random.Random(aseed), ctx)
         orig_obs = observe_objs(items)          # the reference content: the objects that were archived
+        if mark_f32(ar, items):
+            # known finding C09-9: a float32 number in a stored vector; dumps_json must fail in exactly that way (or work)
+            try:
+                P.dumps_json(ar)
+            except Exception as ex:
+                f = {'format': 'json', 'why': 'dump-raised', 'detail': '%s: %s' % (type(ex).__name__, str(ex)[:150]),
+                     'f32': f32_of(ar), 'written_as': 'json', 'archive_seed': aseed, 'ctx': ctx}
+                if is_known(f):
+                    h = dist.setdefault('known_class_hits', {}); h['C09-9'] = h.get('C09-9', 0) + 1
+                else:
+                    mism.append(dict(f, kind='json-dump-raised'))
+                continue
         ar._freeze()
         tags = desc['tags']
         dist['archives'] += 1
         for k in desc['kinds']: dist['kinds'][k] = dist['kinds'].get(k, 0) + 1
         dist['leaves'] += len(ar._leaf_nodes); dist['tagged'] += len(tags); dist['intermediates'] += len(ar._intermediate_uids)
+        count_nonfloat(ar, dist)
         base_text = P.dumps_json(ar)
         base = json.loads(base_text)
         info = {'archive': ai, 'ctx': ctx, 'archive_seed': aseed, 'format': 'json', 'tags': tags}
@@ -248,15 +309,27 @@ def correspondence(rng, tier):
     gmeta.append([{'check': 'witness of C09_sniff_refuted: model document/text = implementation'},
                   {'check': 'witness of C09_sniff_refuted: decoder chosen', 'path': wpath, 'outcome': str(wobs)[:100]}])
     # tags that are words of the storage formats (every one of them, as real / complex / intermediate entries)
-    for kind in ('real', 'complex', 'interm'):
-        r, rar, rtags = check_reserved(kind)
+    for kind in ('real', 'complex', 'interm', 'numeric', 'numeric32'):
+        fails, rar, rtags = check_reserved(kind)
         dist['reserved_tags_' + kind] = len(rtags); steps += 4
-        if r is not None and not is_known(dict(r, format='reserved')):
-            mism.append(dict(r, kind='reserved-tags', format='reserved', options={'kind': kind}))
-        rdoc = json.loads(P.dumps_json(rar))
-        groups.append(('Definition A : farchive F := %s.\nDefinition D : json F := %s.' % (G.abstract_archive(rar), G.cjson(rdoc)),
+        if kind.startswith('numeric'): count_nonfloat(rar, dist)
+        for r in fails:
+            if not is_known(dict(r, format='reserved')):
+                mism.append(dict(r, kind='reserved-tags', format='reserved', options={'kind': kind}))
+            else:
+                h = dist.setdefault('known_class_hits', {}); h['C09-9'] = h.get('C09-9', 0) + 1
+        if kind == 'numeric32':
+            continue                      # no JSON document exists for it (that is the finding)
+        try:
+            rdoc = json.loads(P.dumps_json(rar))          # (the same archive object, after it was written as XML)
+            rabs = G.abstract_archive(rar)
+        except Exception as ex:
+            mism.append({'kind': 'sequence-dump-raised', 'format': 'sequence', 'why': 'dump-raised', 'options': {'kind': kind},
+                         'detail': 'dumps_json after dumps_xml on one archive: %s: %s' % (type(ex).__name__, str(ex)[:150])})
+            continue
+        groups.append(('Definition A : farchive F := %s.\nDefinition D : json F := %s.' % (rabs, G.cjson(rdoc)),
                        ['case_encode A D', 'case_valid D %s' % cbool(V['json'].is_valid(rdoc))]))
-        gmeta.append([{'check': 'model encoder = document written (reserved-word tags, %s)' % kind},
+        gmeta.append([{'check': 'model encoder = document written (reserved-word tags / numeric zoo, %s)' % kind},
                       {'check': 'model validator = jsonschema (reserved-word tags, %s)' % kind}])
     xm = xml_correspondence(rng, tier, dist, samples)
     mism += xm['mismatches']; steps += xm['steps']
@@ -299,34 +372,38 @@ def find_patterns(s):
         for v in s: yield from find_patterns(v)
 
 def check_reserved(kind, ctx=7):
-    """archives whose tags are the words of the storage formats themselves: every document must validate and read
-    back with the original content, in both formats.  -> (failure dict or None, archive, tags)"""
+    """fixed archives: tags that are the words of the storage formats ('real', 'complex', 'interm'), numbers in every accepted
+    guise ('numeric'), float32 constants ('numeric32', known finding C09-9).  Every document must validate and read back with
+    the original content, in both formats.  -> (list of failure dicts -- one per format/option at most --, archive, tags)"""
     from GTC import persistence as P
     from lxml import etree
     V = validators()
-    ar, tags, items = G.reserved_archive(kind, ctx)
+    builder = {'numeric': G.numeric_archive, 'numeric32': G.numeric32_archive}.get(kind)
+    ar, tags, items = builder(ctx) if builder else G.reserved_archive(kind, ctx)
     orig = observe_objs(items)
+    f32 = mark_f32(ar, items)
+    fails = []
     for fmt, kw in (('json', {}), ('json', {'sort_keys': True, 'indent': 1}), ('xml', {}), ('xml', {'prefix': 'gtc', 'indent': 2})):
-        where = {'reserved_kind': kind, 'written_as': fmt, 'kw': kw}
+        where = {'reserved_kind': kind, 'written_as': fmt, 'kw': kw, 'f32': f32}
         try:
             out = P.dumps_json(ar, **kw) if fmt == 'json' else P.dumps_xml(ar, **kw)
         except Exception as ex:
-            return dict(where, why='dump-raised', detail='%s: %s' % (type(ex).__name__, str(ex)[:150])), ar, tags
+            fails.append(dict(where, why='dump-raised', detail='%s: %s' % (type(ex).__name__, str(ex)[:150]))); continue
         if fmt == 'json':
             doc = json.loads(out)
             if not V['json'].is_valid(doc):
-                return dict(where, why='schema', errors=[e.message[:200] for e in V['json'].iter_errors(doc)][:3]), ar, tags
+                fails.append(dict(where, why='schema', errors=[e.message[:200] for e in V['json'].iter_errors(doc)][:3])); continue
             _, obs = load_json_observed(out, tags, 903)
         else:
             if not V['xsd'].validate(etree.fromstring(out)):
-                return dict(where, why='schema', detail=str(V['xsd'].error_log)[:300]), ar, tags
+                fails.append(dict(where, why='schema', detail=str(V['xsd'].error_log)[:300])); continue
             obs = load_xml_observed(out, tags, 903)
         if isinstance(obs, str):
-            return dict(where, why='reload', outcome=obs), ar, tags
-        if obs != orig:
-            bad = sorted(k for k in orig if obs.get(k) != orig[k])[:5]
-            return dict(where, why='reload', outcome='content differs at %s' % bad), ar, tags
-    return None, ar, tags
+            fails.append(dict(where, why='reload', outcome=obs))
+        elif obs != orig:
+            dk = diff_keys(obs, orig)
+            fails.append(dict(where, why='reload', outcome='content differs at %s' % dk[:5], diff_keys=dk))
+    return fails, ar, tags
 
 def xml_bytes(out):
     """what dumps_xml returned, as bytes a parser can be given"""
@@ -381,8 +458,11 @@ def xml_check_cell(ar, tags, o, base_obs, k):
         return {'why': 'dump-raised', 'detail': 'dump_xml %s: %s' % (type(ex).__name__, str(ex)[:150])}
     for how in ('loads', 'file', 'name'):
         obs = load_xml_observed(out, tags, k, how)
-        if isinstance(obs, str) or obs != base_obs:
-            return {'why': 'reload', 'loader': how, 'outcome': str(obs)[:200], 'nonascii_bytes': na}
+        if isinstance(obs, str):
+            return {'why': 'reload', 'loader': how, 'outcome': obs, 'nonascii_bytes': na}
+        if obs != base_obs:
+            return {'why': 'reload', 'loader': how, 'outcome': str(obs)[:200], 'nonascii_bytes': na,
+                    'diff_keys': diff_keys(obs, base_obs), 'f32': f32_of(ar), 'written_as': 'xml'}
     return None
 
 def write_sequence(ar, tags, order, orig_obs, k, refs):
@@ -397,7 +477,7 @@ def write_sequence(ar, tags, order, orig_obs, k, refs):
         try:
             out = P.dumps_json(ar) if fmt == 'json' else P.dumps_xml(ar)
         except Exception as ex:
-            return dict(where, why='dump-raised', detail='%s: %s' % (type(ex).__name__, str(ex)[:150]))
+            return dict(where, why='dump-raised', detail='%s: %s' % (type(ex).__name__, str(ex)[:150]), f32=f32_of(ar), written_as=fmt)
         if refs.get(fmt) is not None and out != refs[fmt]:
             return dict(where, why='document-depends-on-history')
         refs.setdefault(fmt, out)
@@ -417,8 +497,10 @@ def write_sequence(ar, tags, order, orig_obs, k, refs):
             if not V['xsd'].validate(doc):
                 return dict(where, why='schema', detail=str(V['xsd'].error_log)[:300])
             obs = load_xml_observed(out, tags, k)
-        if isinstance(obs, str) or obs != orig_obs:
-            return dict(where, why='reload', outcome=str(obs)[:200])
+        if isinstance(obs, str):
+            return dict(where, why='reload', outcome=obs)
+        if obs != orig_obs:
+            return dict(where, why='reload', outcome=str(obs)[:200], diff_keys=diff_keys(obs, orig_obs), f32=f32_of(ar), written_as=fmt)
     return None
 
 SEQUENCES = [['xml', 'json', 'xml', 'json'], ['json', 'xml', 'json', 'xml']]
@@ -466,11 +548,13 @@ def xml_correspondence(rng, tier, dist, samples):
         labels = G.XML_INTL_LABELS if aseed % 2 else G.XML_SAFE_LABELS
         ar, desc, items = G.build_archive(random.Random(aseed), ctx, labels=labels)
         orig_obs = observe_objs(items)
+        mark_f32(ar, items)
         ar._freeze(); tags = desc['tags']
         info = {'archive': ai, 'ctx': ctx, 'archive_seed': aseed, 'format': 'xml', 'tags': tags, 'labels': 'intl' if aseed % 2 else 'safe'}
         dist['xml_nonascii_labels'] = dist.get('xml_nonascii_labels', 0) + sum(
             1 for ln in ar._leaf_nodes.values() if ln.label and any(ord(c) > 127 for c in ln.label))
         dist['xml_archives'] += 1
+        count_nonfloat(ar, dist)
         dist['xml_finite_dof_above_1e5'] += sum(1 for ln in ar._leaf_nodes.values() if 1e5 < ln.df < math.inf)
         f = io.BytesIO(); P.dump_xml(f, ar); base_out = f.getvalue()
         if base_out != P.dumps_xml(ar):
@@ -485,12 +569,13 @@ def xml_correspondence(rng, tier, dist, samples):
                 mism.append(dict(info, kind='xml-' + r['why'], options=o, **r))
             elif r is not None:
                 h = dist.setdefault('known_class_hits', {})
-                key = 'C09-7' if G.xml_expected_failure(o, r['why'], bool(r.get('nonascii_bytes'))) else 'other-known'
+                key = 'C09-7' if G.xml_expected_failure(o, r['why'], bool(r.get('nonascii_bytes'))) else ('C09-9' if r.get('diff_keys') else 'other-known')
                 h[key] = h.get(key, 0) + 1
         # the same Archive object written in several formats in sequence, both orders (twins from the same seed)
         refs = {}
         for order in SEQUENCES:
             tw, tdesc, titems = G.build_archive(random.Random(aseed), ctx, labels=labels)
+            mark_f32(tw, titems)
             dist['sequences'] += 1; steps += len(order)
             r = write_sequence(tw, tags, order, orig_obs, 700 + ai, refs)
             if r is not None and not is_known(dict(info, format='sequence', **r)):
@@ -548,6 +633,16 @@ def is_known(f):
     # C09-7: encodings the reader cannot decode / alias spellings in the declaration / 8-bit without declaration
     if f.get('format') == 'xml' and G.xml_expected_failure(o, f.get('why'), bool(f.get('nonascii_bytes'))):
         return True
+    # C09-9: a stored component that is a non-float64 numpy floating number (np.float32 constant in an operation):
+    # dumps_json raises TypeError (not JSON serializable); XML reload differs only at numbers of reals in that class
+    f32 = set(f.get('f32') or [])
+    if f32:
+        if f.get('why') == 'dump-raised' and 'not JSON serializable' in str(f.get('detail')) and 'float' in str(f.get('detail')) \
+           and 'float64' not in str(f.get('detail')):
+            return True
+        dk = f.get('diff_keys')
+        if f.get('why') == 'reload' and dk and all(in_f32_class(k, f32) for k in dk) and f.get('written_as', 'xml') == 'xml':
+            return True
     # C09-5: an intermediate result with zero uncertainty has dof nan: 'nan' in XML, NaN in JSON
     if f.get('why') == 'schema' and "'nan' is not a valid value" in str(f.get('detail')):
         return True
@@ -664,6 +759,26 @@ def kf_add_self():
         return "multiple values for argument 'self'" in str(ex), str(ex)[:100]
     return False, 'accepted'
 
+def kf_float32():
+    """result(x * numpy.float32(k)): (1) k = 2.0 (exact): dumps_json raises TypeError (float32 is not JSON serializable);
+    (2) k = 0.1 (inexact): the XML document reads back with a different component.  reproduces = both"""
+    import numpy as np
+    from GTC import core, archive as garchive, persistence as P
+    out = []
+    for k in (np.float32(2.0), np.float32(0.1)):
+        new_context(7)
+        x = core.ureal(1.5, 0.25, 4); y = core.result(x * k)
+        items = {'x': x, 'y': y}
+        orig = observe_objs(items)
+        ar = garchive.Archive(); ar.add(**items)
+        try:
+            P.dumps_json(ar); j = False
+        except TypeError as ex:
+            j = 'float32' in str(ex)
+        obs = load_xml_observed(P.dumps_xml(ar), ['x', 'y'], 8)
+        out.append((j, (not isinstance(obs, str)) and obs != orig))
+    return (out[0][0] and out[1][1]), 'factor 2.0: json TypeError=%s xml differs=%s; factor 0.1: json TypeError=%s xml differs=%s' % (out[0] + out[1])
+
 def kf_xml_label_chars():
     """a label with a character outside the XML Char production (e.g. \\x0b) yields ill-formed XML"""
     from GTC import persistence as P
@@ -688,9 +803,13 @@ def check_archive(rng_state_seed, ctx, fmt, o):
     labels = G.LABELS if fmt == 'json' else (G.XML_INTL_LABELS if rng_state_seed % 2 else G.XML_SAFE_LABELS)
     ar, desc, items = G.build_archive(random.Random(rng_state_seed), ctx, labels=labels)
     orig_obs = observe_objs(items)
+    mark_f32(ar, items)
     tags = desc['tags']
     if fmt == 'json':
-        text = P.dumps_json(ar, **G.json_kwargs(o))
+        try:
+            text = P.dumps_json(ar, **G.json_kwargs(o))
+        except Exception as ex:
+            return {'why': 'dump-raised', 'detail': '%s: %s' % (type(ex).__name__, str(ex)[:150]), 'f32': f32_of(ar), 'written_as': 'json'}
         try:
             doc = json.loads(text, parse_constant=_not_json)
         except ValueError as ex:
@@ -702,7 +821,10 @@ def check_archive(rng_state_seed, ctx, fmt, o):
             return {'why': 'reload', 'outcome': str(obs)[:200]}
         return None
     if fmt == 'reserved':
-        return check_reserved(o['kind'])[0]
+        for r in check_reserved(o['kind'])[0]:
+            if not is_known(dict(r, format='reserved')):
+                return r
+        return None
     if fmt == 'sequence':
         return write_sequence(ar, tags, o['order'], orig_obs, 902, {})
     if fmt == 'prefix':
@@ -720,7 +842,7 @@ def search(rng, tier, broken):
         seed = rng.getrandbits(48); ctx = rng.choice([7, rng.getrandbits(100) + 1])
         pgrid = [{'prefix': q, 'expect': e} for e, l in (('accept', G.GOOD_PREFIXES), ('refuse', G.BAD_PREFIXES), ('either', G.RESERVED_PREFIXES)) for q in l]
         for fmt, grid in (('json', G.JSON_GRID), ('xml', G.XML_GRID), ('sequence', [{'order': q} for q in SEQUENCES]), ('prefix', pgrid),
-                          ('reserved', [{'kind': q} for q in ('real', 'complex', 'interm')])):
+                          ('reserved', [{'kind': q} for q in ('real', 'complex', 'interm', 'numeric', 'numeric32')])):
             for o in rng.sample(grid, min(6, len(grid))):
                 f = {'format': fmt, 'archive_seed': seed, 'ctx': ctx, 'options': o}
                 if is_known(f): continue
